@@ -24,6 +24,7 @@ type ModClause struct {
 	src   string
 	all   bool
 	allMaps bool // every map heap may change, nothing else
+	pkgHeaps string // every field heap of the structs of this package may change (accumulator state behind an interface)
 	heaps []string
 	sorts []Sort
 	at    ast.Expr // base reference expression (nil: whole heap)
